@@ -463,7 +463,7 @@ Proof.
     destruct (IH s' now parent lvl s1 H Hroot Hl x Hin) as (s0 & Hs0 & Hc).
     exists s0. split; [|exact Hc]. right. destruct Hs0 as [->|(k & ->)].
     + exists 1%nat. cbn. exact Es'.
-    + exists (S k). rewrite Es'. symmetry. apply iter_shift.
+    + exists (S k). rewrite Es'. symmetry. apply (iter_shift (fun y => sweep y now)).
 Qed.
 
 Theorem op_delegate_sound s now parent child secs lvl ttl s' :
@@ -635,8 +635,8 @@ Proof.
       try apply w_audit_ok; try apply w_err_ok; eapply ext_ok_same; try apply ext_ok_refl; cbn [wlog]; congruence.
   - (* delegate *)
     unfold op_delegate.
-    assert (Hd : forall xs s0, ext_ok s0 (fst (deleg_check pol sw s0 now pa xs l))).
-    { induction xs as [|y ys IH]; intros s0; cbn [deleg_check fst]; [apply ext_ok_refl|].
+    assert (Hd : forall zs s0, ext_ok s0 (fst (deleg_check pol sw s0 now pa zs l))).
+    { induction zs as [|y ys IH]; intros s0; cbn [deleg_check fst]; [apply ext_ok_refl|].
       pose proof (get_permission_wlog s0 now pa y) as Hw.
       destruct (get_permission pol sw s0 now pa y) as [s1 pl]. cbn [fst] in Hw.
       destruct pl as [lv|]; [|cbn [fst]; eapply ext_ok_same; [apply ext_ok_refl|exact Hw]].
@@ -652,8 +652,8 @@ Proof.
     destruct (N.ltb maxd _); [exact Hd|].
     cbn [fst]. apply ext_ok_log.
     + eapply ext_ok_trans; [exact Hd|]. eapply ext_ok_same; [apply ext_ok_refl|reflexivity].
-    + clear. induction xs as [|y ys IH]; [reflexivity|]. cbn [flat_map]. rewrite forallb_app, IH, Bool.andb_true_r.
-      destruct t; reflexivity.
+    + apply forallb_forall. intros w Hw. apply in_flat_map in Hw. destruct Hw as (x & _ & Hw).
+      destruct t; cbn in Hw; repeat (destruct Hw as [<-|Hw]; [reflexivity|]); destruct Hw.
   - (* sealed window *)
     unfold op_sealed. destruct (sg || negb sw || N.eqb r root); cbn [fst]; [apply ext_ok_refl|].
     eapply ext_ok_same; [apply ext_ok_refl|reflexivity].
